@@ -91,6 +91,8 @@ class Step:
             return "ack"
         if self.ev.startswith("P "):
             return "pure"
+        if self.ev.startswith("L "):
+            return "locks"
         return self.toks[0] if self.toks else "?"
 
 
@@ -140,7 +142,7 @@ def load_cases(in_path, impl_path, model_path):
             cur.cfg_line = il
             cur.cfg = parse_cfg(il)
             cur.init_impl, cur.init_model = ml, dl
-        elif il.startswith("E ") or il.startswith("A ") or il.startswith("P "):
+        elif il.startswith("E ") or il.startswith("A ") or il.startswith("P ") or il.startswith("L "):
             cur.steps.append(Step(il, ml, dl, len(cur.steps)))
         elif il.startswith("#"):
             cur.notes.append(il)
